@@ -57,4 +57,30 @@ end
 /-- a whole document: root fields at depth 0, no newline before the first -/
 def textRoot (c : UInt8) (f : Nat) (fs : NFields) : Bytes := (textF c f 0 fs).drop 1
 
+mutual
+/-- the tokens a value must parse to, positions of scalars erased, `b` = index of its first token -/
+def etoksV : Nat → NVal → List TextTape.Tok
+  | _, .scal s => [(s.scal.tok []).erase]
+  | b, .obj k o v r =>
+    [TextTape.Tok.object (b + 1 + (etoksF (b + 1) (.cons k o v r)).length) false] ++ etoksF (b + 1) (.cons k o v r) ++
+      [TextTape.Tok.endTok b]
+def etoksF : Nat → NFields → List TextTape.Tok
+  | _, .nil => []
+  | b, .cons k o v r =>
+    ((k.scal.tok []).erase :: (opOf o).toks) ++
+      (etoksV (b + (1 + (opOf o).toks.length)) v ++
+        etoksF (b + (1 + (opOf o).toks.length) + (etoksV (b + (1 + (opOf o).toks.length)) v).length) r)
+end
+
+mutual
+/-- every scalar of the document is a scalar of the text format -/
+def ValidV : NVal → Prop
+  | .scal s => s.scal.Valid
+  | .obj k _ v r => k.scal.Valid ∧ ValidV v ∧ ValidF r
+def ValidF : NFields → Prop
+  | .nil => True
+  | .cons k _ v r => k.scal.Valid ∧ ValidV v ∧ ValidF r
+end
+
+
 end Jomini.Writer.Spec
